@@ -325,6 +325,10 @@ func mkOps(cfg Config) []opDef {
 		if r.Assoc {
 			assoc = true
 		}
+		if r.T == 0 && len(ops) < 4+len(cfg.Rules) {
+			// under a threshold of 0 the only request that fits is the one for no tokens: 0 + 0 <= 0
+			ops = append(ops, opDef{req: true, res: "a", batch: 0})
+		}
 	}
 	if assoc {
 		ops = append(ops, opDef{req: true, res: "b", batch: 1}, opDef{req: true, res: "b", batch: 2})
